@@ -324,9 +324,9 @@ type walkOptions struct {
 type WalkOption func(*walkOptions)
 
 func (wo *walkOptions) addHandler(handler func(c cid.Cid, err error) error) {
-	if wo.ErrorHandler != nil {
+	if prev := wo.ErrorHandler; prev != nil {
 		wo.ErrorHandler = func(c cid.Cid, err error) error {
-			return handler(c, wo.ErrorHandler(c, err))
+			return handler(c, prev(c, err))
 		}
 	} else {
 		wo.ErrorHandler = handler
